@@ -604,6 +604,87 @@ def thread_bools(facts):
     facts.threaded = n_threaded
 
 
+def fold_const_enums(facts):
+    """A helper that takes a field-less enum as a mode parameter (`release(cluster, ChainRelease::Tail)`) and was inlined at
+    a call with a literal argument keeps both arms of its `match` in the caller's CFG although only one can run. Constant
+    propagation over single-definition locals: a local whose only definition is a unit variant (or a copy of such a local),
+    never borrowed mutably, has a known discriminant; a switch on it is replaced by a goto to the arm it selects."""
+    n = 0
+    for fn in facts.fns.values():
+        if fn.crate not in ('fatfs', 'witness') or not fn.blocks:
+            continue
+        if fn.name not in {c for lst in (getattr(facts, 'inlined', {}) or {}).values() for c, _b in lst}:
+            continue  # only functions something was inlined into
+        defs, multi, tainted = {}, set(), set()
+        for bi, B in enumerate(fn.blocks):
+            for s_ in B['stmts']:
+                if s_['k'] != 'assign':
+                    if s_['k'] == 'setdiscr':
+                        tainted.add((s_.get('lhs') or {}).get('l'))
+                    continue
+                if s_['lhs']['p']:
+                    tainted.add(s_['lhs']['l'])
+                else:
+                    l = s_['lhs']['l']
+                    if l in defs:
+                        multi.add(l)
+                    defs[l] = s_['rv']
+                rv = s_['rv']
+                if rv['k'] in ('ref', 'rawptr') and (rv.get('mut') or rv['k'] == 'rawptr'):
+                    tainted.add(rv['p']['l'])
+            t = B['term']
+            if t['k'] == 'call' and not t['dest']['p']:
+                l = t['dest']['l']
+                if l in defs:
+                    multi.add(l)
+                defs[l] = {'k': 'callresult'}
+        for l in range(1, fn.argc + 1):
+            multi.add(l)
+
+        def value(l, depth=0):
+            if l in multi or l in tainted or depth > 8:
+                return None
+            rv = defs.get(l)
+            if rv is None:
+                return None
+            if rv['k'] == 'agg' and rv.get('ak') == 'adt' and not rv.get('ops'):
+                a = facts.adts.get(rv.get('adt'))
+                if a and a.get('kind') == 'enum' and all(not v.get('fields') for v in a['variants']):
+                    for v in a['variants']:
+                        if v['name'] == rv.get('variant') and 'discr' in v:
+                            return v['discr']
+                return None
+            if rv['k'] == 'use':
+                a = rv['a']
+                pl = a.get('c') or a.get('m')
+                if pl is not None and not pl['p']:
+                    return value(pl['l'], depth + 1)
+            return None
+
+        changed = False
+        for bi, B in enumerate(fn.blocks):
+            t = B['term']
+            if t['k'] != 'switch':
+                continue
+            d = t['discr'].get('c') or t['discr'].get('m')
+            if d is None or d['p'] or d['l'] in multi:
+                continue
+            rv = defs.get(d['l'])
+            if rv is None or rv['k'] != 'discr' or rv['p']['p']:
+                continue
+            v = value(rv['p']['l'])
+            if v is None:
+                continue
+            tgt = next((tb for vv, tb in t['targets'] if vv == v), t['otherwise'])
+            B['term'] = {'k': 'goto', 'ret': tgt, 'span': t['span'], 'folded_const_enum': v}
+            changed = True
+            n += 1
+        if changed:
+            fn._succ = fn._pred = fn._dom = fn._pdom = fn._reach = None
+            fn.__dict__.pop('_bool_switch_cache', None)
+    facts.folded_enums = n
+
+
 # ---------------------------------------------------------------------------------------------------------------
 # Renamed private fields: a few rules are tied to a field by the role it plays (the write-back latch of the cached
 # directory entry / of the FS-information sector). The role is recognisable from the type - it is the only `bool` field of
